@@ -91,9 +91,10 @@ def fmt_float(rng):
 class ProgGen:
     """Builds one program as a token list; keeps enough bookkeeping to stay within ranges."""
 
-    def __init__(self, rng, gateset):
+    def __init__(self, rng, gateset, two_regs=False):
         self.rng = rng
         self.gs = gateset
+        self.two_regs = two_regs
         self.toks = []
         self.lets = {}       # name -> python value
         self.regs = {}       # register-like name -> size (number of qubits)
@@ -145,6 +146,10 @@ class ProgGen:
             self.e(str(size), "size")
         self.e("]"); self.nl()
         self.regs["r"] = size
+        if self.two_regs:   # only the circuit builder accepts a second fundamental register
+            size2 = rng.randrange(1, 6)
+            self.e("register"); self.sp(); self.e("s", "def_reg2"); self.e("["); self.e(str(size2), "size"); self.e("]"); self.nl()
+            self.regs["s"] = size2
         for i in range(rng.choice([0, 0, 1, 2, 3, 4])):
             src = rng.choice(list(self.regs))
             ssz = self.regs[src]
@@ -346,6 +351,7 @@ def mutants(toks, rng, per_prog, sig_tables):
     out = []
     idxs = [i for i, t in enumerate(toks) if t.role not in ("ws", "kw", "sep", "def_reg", "def_map", "def_let", "def_param", "close")]
     rng.shuffle(idxs)
+    idxs = [i for i in idxs if toks[i].role == "def_reg2"] + [i for i in idxs if toks[i].role != "def_reg2"]
     lets = [t.text for t in toks if t.role == "def_let"]
     regs = [t.text for t in toks if t.role in ("def_reg", "def_map")]
     macs = [t.text for t in toks if t.role == "def_macro"]
@@ -439,6 +445,11 @@ def mutants(toks, rng, per_prog, sig_tables):
                 out.append(("subcircuit_flag", with_text(i, "", extra)))
                 if toks[j].role == "open":
                     out.append(("subcircuit_count_added", with_text(i, "subcircuit " + str(rng.choice([0, 2, 3])))))
+            elif r == "def_reg2":
+                # the second fundamental register becomes an alias of the first one UNDER THE SAME NAME
+                out.append(("fundamental_to_whole_alias", with_text(i, "s r", {i - 2: "map", i + 1: "", i + 2: "", i + 3: ""})))
+                k = int(toks[i + 2].text)
+                out.append(("fundamental_to_slice_alias", with_text(i, "s r", {i - 2: "map", i + 2: "0:" + toks[i + 2].text})))
             elif r == "module":
                 out.append(("usepulses_module", with_text(i, t.text + "x")))
             elif r == "def_macro":
@@ -452,7 +463,11 @@ def mutants(toks, rng, per_prog, sig_tables):
 
 # ------------------------------------------------------------------------------------------------ real side
 
-def parse(text, gs):
+def parse(text, gs, builder=False):
+    if builder:   # what parse_jaqal_string does, minus its "too many registers" check
+        from jaqalpaq.parser.parser import parse_to_sexpression
+        from jaqalpaq.core.circuitbuilder import build
+        return build(parse_to_sexpression(text), inject_pulses=GATES if gs else None, autoload_pulses=False)
     return parse_jaqal_string(text, inject_pulses=GATES if gs else None, autoload_pulses=False)
 
 
@@ -690,10 +705,18 @@ def rand_stmt(rng, depth=0):
     body = [rand_stmt(rng, depth + 1) for _ in range(rng.randrange(0, 3))]
     sub = rng.random() < 0.4
     it = rng.choice([1, 1, 2, 1.0, Constant("n", 2), Parameter("p", ParamType.NONE)]) if sub else rng.choice([1, 1, 1.0])
-    blk = BlockStatement(parallel=rng.random() < 0.4, subcircuit=sub, iterations=it, statements=body)
+    par = rng.random() < 0.4
+    try:
+        blk = BlockStatement(parallel=par, subcircuit=sub, iterations=it, statements=body)
+    except JaqalError:   # the constructor refuses this count
+        blk = BlockStatement(parallel=par, subcircuit=sub, iterations=2 if sub else 1, statements=body)
     if k == 1:
         return blk
-    return LoopStatement(rng.choice([1, 2, 1.0, Constant("n", 2), Parameter("p", ParamType.NONE)]), blk)
+    cnt = rng.choice([1, 2, 1.0, Constant("n", 2), Parameter("p", ParamType.NONE)])
+    try:
+        return LoopStatement(cnt, blk)
+    except JaqalError:
+        return LoopStatement(2, blk)
 
 
 def rand_api_circuit(rng):
@@ -740,14 +763,17 @@ def norm_err(x):
 # ------------------------------------------------------------------------------------------------ run
 
 ORACLES = ["eq_reflexive", "eq_symmetric", "eq_never_raises", "reparse_equal", "generated_text_fixpoint",
-           "equal_implies_same_meaning_and_decls", "meaning_changing_mutant_is_unequal", "generate_never_raises_on_parsed"]
+           "equal_implies_same_meaning_and_decls", "meaning_changing_mutant_is_unequal", "generate_never_raises_on_parsed",
+           "eq_symmetric_two_registers", "eq_never_raises_two_registers", "eq_symmetric_api_objects", "eq_never_raises_api_objects",
+           "formerly_asymmetric_pairs_now_false_both_ways"]
 
 
 def make_program(seed, idx):
     rng = random.Random(f"{seed}:prog:{idx}")
     gs = rng.random() < 0.5
-    toks = ProgGen(rng, gs).program()
-    return toks, gs, rng
+    builder = rng.random() < 0.25      # a second fundamental register; goes through the circuit builder
+    toks = ProgGen(rng, gs, two_regs=builder).program()
+    return toks, gs, rng, builder
 
 
 def _trunc(l, k=20):
@@ -779,22 +805,25 @@ def eq_pair(acc, a, b, da, db, case, expect_kind):
     if da is not None and db is not None:
         acc.ask("pyeq", {"a": da, "b": db}, dict(case, order="a==b"), ab)
         acc.ask("pyeq", {"a": db, "b": da}, dict(case, order="b==a"), ba)
-    acc.check("eq_never_raises", isinstance(ab, bool) and isinstance(ba, bool), case, f"a==b: {ab}, b==a: {ba}")
-    acc.check("eq_symmetric", ab == ba, case, f"a==b is {ab} but b==a is {ba}")
+    sfx = "_two_registers" if case.get("builder") else ""
+    acc.check("eq_never_raises" + sfx, isinstance(ab, bool) and isinstance(ba, bool), case, f"a==b: {ab}, b==a: {ba}")
+    acc.check("eq_symmetric" + sfx, ab == ba, case, f"a==b is {ab} but b==a is {ba}")
     return ab, ba
 
 
 def process_program(acc, seed, idx, thorough, per_prog):
-    toks, gs, rng = make_program(seed, idx)
+    toks, gs, rng, builder = make_program(seed, idx)
     text = text_of(toks)
-    case0 = {"kind": "program", "seed": seed, "idx": idx, "gateset": gs, "text": text}
+    case0 = {"kind": "program", "seed": seed, "idx": idx, "gateset": gs, "text": text, "builder": builder}
     try:
-        c = parse(text, gs)
-        c_again = parse(text, gs)
+        c = parse(text, gs, builder)
+        c_again = parse(text, gs, builder)
     except Exception as e:  # noqa
         acc.dist["generated_program_rejected:" + type(e).__name__] += 1
         return
     acc.dist["programs"] += 1
+    if builder:
+        acc.dist["programs_two_fundamental_registers(builder)"] += 1
     acc.dist["programs_gateset" if gs else "programs_no_gateset"] += 1
     for role in ("def_let", "def_map", "def_macro", "subkw", "module"):
         if any(t.role == role for t in toks):
@@ -808,7 +837,7 @@ def process_program(acc, seed, idx, thorough, per_prog):
         acc.ask("gen", {"circuit": d}, case0, g)
     if "ok" in g:
         try:
-            c2 = parse(g["ok"], gs)
+            c2 = parse(g["ok"], gs, builder)
             e1, e2 = py_eq(c, c2), py_eq(c2, c)
             acc.check("reparse_equal", e1 is True and e2 is True, case0, f"c==reparse: {e1}, reparse==c: {e2}; text={g['ok']!r}")
             g2 = py_gen(c2)
@@ -829,11 +858,11 @@ def process_program(acc, seed, idx, thorough, per_prog):
     acc.dist["meaning_error" if m0[0] == "error" else "meaning_ok"] += 1
     # (c) mutants
     for kind, mtext in mutants(toks, rng, per_prog, [GS_SIG] if gs else [NOGS_SIG]):
-        case = {"kind": "mutant", "mutation": kind, "gateset": gs, "text": text, "mutant": mtext}
+        case = {"kind": "mutant", "mutation": kind, "gateset": gs, "text": text, "mutant": mtext, "builder": builder}
         if mtext == text:
             continue
         try:
-            cm = parse(mtext, gs)
+            cm = parse(mtext, gs, builder)
         except Exception as e:  # noqa
             acc.dist["mutant_rejected"] += 1
             continue
@@ -860,7 +889,7 @@ def process_program(acc, seed, idx, thorough, per_prog):
         if not thorough and rng.random() < 0.5:
             continue
         prng = random.Random(f"{seed}:{idx}:{pname}")
-        case = {"kind": "pass", "pass": pname, "seed": seed, "idx": idx, "gateset": gs, "text": text}
+        case = {"kind": "pass", "pass": pname, "seed": seed, "idx": idx, "gateset": gs, "text": text, "builder": builder}
         try:
             cp = apply_pass(pname, c, prng)
         except Exception as e:  # noqa
@@ -885,6 +914,13 @@ def process_program(acc, seed, idx, thorough, per_prog):
                 acc.check("equal_implies_same_meaning_and_decls", m0 == mp, case, "pass result equal to its input but meaning differs")
 
 
+def api_oracles(acc, a, b, case):
+    """C20 symmetry / no-raise on objects built directly through the constructors"""
+    ab, ba = py_eq(a, b), py_eq(b, a)
+    acc.check("eq_never_raises_api_objects", isinstance(ab, bool) and isinstance(ba, bool), case, f"a==b: {ab}, b==a: {ba}")
+    acc.check("eq_symmetric_api_objects", ab == ba, case, f"a==b is {ab} but b==a is {ba}")
+
+
 def process_api(acc, seed, idx):
     rng = random.Random(f"{seed}:api:{idx}")
     # values
@@ -901,6 +937,7 @@ def process_api(acc, seed, idx):
             continue  # identity is outside a by-value model; a structurally equal copy is what is compared
         acc.ask("val_eq", {"a": da, "b": db}, dict(case, order="a==b"), py_eq(a, b))
         acc.ask("val_eq", {"a": db, "b": da}, dict(case, order="b==a"), py_eq(b, a))
+        api_oracles(acc, a, b, case)
         acc.nontrivial.add(json.dumps([da, db], sort_keys=True))
         acc.dist["api_val_pairs"] += 1
     for _ in range(3):
@@ -911,6 +948,7 @@ def process_api(acc, seed, idx):
         case = {"kind": "stmt", "seed": seed, "idx": idx, "a": da, "b": db}
         acc.ask("stmt_eq", {"a": da, "b": db}, dict(case, order="a==b"), py_eq(a, b))
         acc.ask("stmt_eq", {"a": db, "b": da}, dict(case, order="b==a"), py_eq(b, a))
+        api_oracles(acc, a, b, case)
         acc.dist["api_stmt_pairs"] += 1
     c1, c2 = rand_api_circuit(rng), rand_api_circuit(rng)
     for c in (c1, c2):
@@ -926,11 +964,13 @@ def process_api(acc, seed, idx):
         case = {"kind": "api_circuit_pair", "seed": seed, "idx": idx, "a": d1, "b": d2}
         acc.ask("pyeq", {"a": d1, "b": d2}, dict(case, order="a==b"), py_eq(c1, c2))
         acc.ask("pyeq", {"a": d2, "b": d1}, dict(case, order="b==a"), py_eq(c2, c1))
+        api_oracles(acc, c1, c2, case)
         acc.dist["api_circuit_pairs"] += 1
 
 
 def known_pairs(acc):
-    """hand-written pairs that exercise the asymmetric corners of `==` (builder circuits, several registers)"""
+    """hand-written pairs on which `==` used to be asymmetric / unsound / raising before the repairs 042b591, dd507cc
+    (a fundamental register against an alias of the same name): now False in both orders, no exception"""
     from jaqalpaq.parser.parser import parse_to_sexpression
     from jaqalpaq.core.circuitbuilder import build
 
@@ -939,7 +979,9 @@ def known_pairs(acc):
 
     pairs = [("register r[2]\nregister q[2]\ng r[0]\n", "register q[2]\nmap r q\ng r[0]\n"),
              ("register q[2]\nregister r[1]\ng r[0]\n", "register q[2]\nmap r q[1:2]\ng r[0]\n"),
-             ("register r[2]\nmap q r\n", "register q[2]\nmap r q\n")]
+             ("register r[2]\nmap q r\n", "register q[2]\nmap r q\n"),
+             # both accepted by parse_jaqal_string; `a == b` used to RAISE (zero step inside `other.size`), `b == a` was False
+             ("let z 0\nregister r[4]\nmap q r\nmacro m { g r }\n", "let z 0\nregister q[4]\nmap r q[0:2:z]\nmacro m { g r }\n")]
     for ta, tb in pairs:
         a, c = b(ta), b(tb)
         da, dc = dumpc(a), dumpc(c)
@@ -947,8 +989,15 @@ def known_pairs(acc):
         acc.ask("pyeq", {"a": da, "b": dc}, dict(case, order="a==b"), py_eq(a, c))
         acc.ask("pyeq", {"a": dc, "b": da}, dict(case, order="b==a"), py_eq(c, a))
         acc.dist["builder_multi_register_pairs"] += 1
-        if py_eq(a, c) != py_eq(c, a):
-            acc.dist["KNOWN_asymmetric_builder_pair(several fundamental registers)"] += 1
+        acc.check("formerly_asymmetric_pairs_now_false_both_ways", py_eq(a, c) is False and py_eq(c, a) is False, case,
+                  f"a==b: {py_eq(a, c)}, b==a: {py_eq(c, a)}")
+    from jaqalpaq.core import Constant, Parameter, ParamType
+    p, k = Parameter("n", ParamType.INT), Constant("n", 1)
+    case = {"kind": "builder_pair", "a_text": "Parameter('n', INT)", "b_text": "Constant('n', 1)"}
+    acc.ask("val_eq", {"a": dump.val(p), "b": dump.val(k)}, dict(case, order="a==b"), py_eq(p, k))
+    acc.ask("val_eq", {"a": dump.val(k), "b": dump.val(p)}, dict(case, order="b==a"), py_eq(k, p))
+    acc.check("formerly_asymmetric_pairs_now_false_both_ways", py_eq(p, k) is False and py_eq(k, p) is False, case,
+              f"a==b: {py_eq(p, k)}, b==a: {py_eq(k, p)}")
 
 
 def run(seed: int, n: int, driver: str = DEFAULT_DRIVER, thorough: bool = False) -> dict:
@@ -999,13 +1048,14 @@ def replay(case: dict, driver: str = DEFAULT_DRIVER) -> dict:
                 "detail": f"{len(bad)} disagreements in the regenerated batch"}
     gs = case["gateset"]
     text = case["text"]
-    a = parse(text, gs)
+    bld = bool(case.get("builder"))
+    a = parse(text, gs, bld)
     if kind == "mutant":
-        b = parse(case["mutant"], gs)
+        b = parse(case["mutant"], gs, bld)
     elif kind == "pass":
         b = apply_pass(case["pass"], a, random.Random(f"{case['seed']}:{case['idx']}:{case['pass']}"))
     else:
-        b = parse(generate_jaqal_program(a), gs)
+        b = parse(generate_jaqal_program(a), gs, bld)
     da, db = dumpc(a), dumpc(b)
     ab, ba = py_eq(a, b), py_eq(b, a)
     model = call_driver(driver, [{"op": "pyeq", "a": da, "b": db}, {"op": "pyeq", "a": db, "b": da},
